@@ -233,6 +233,7 @@ def main():
                         elif r < 0.75: script.append(("RS",))
                         elif r < 0.78: script.append(("ST",)); script.append(("P", 2)); script.append(("RS",))
                         elif r < 0.88: script.append(("TF", rng.choice((100, 50, 200, 150, 25, 400, 300, 75, 125, 800)))); script.append(("P", rng.choice((1, 3, 12))))     # factors whose time factor is exact in binary: the model's tick size is the floor of an exact rational, the C computes in doubles
+                        elif r < 0.93 and numvoc <= 0 and mode == -1: script.append(("RE", rng.choice((4000, 8000, 11025, 22050, 44100, 48000, 49170)))); script.append(("P", rng.choice((1, 5, 20))))
                     script.append(("P", 20))
                 r = V.run([pdrv, path, str(rate), str(fmt), str(numvoc), str(mode), "1", "1"], inp="".join(" ".join(str(x) for x in s) + "\n" for s in script), env=env, timeout=600)
                 out = r.stdout.split("\n")
@@ -278,7 +279,7 @@ def main():
                         finp.append("C %s %s %s %d %d" % (cw2[1], cw2[2], cw2[3], fr2.numerator, fr2.denominator))
                     elif l.startswith("OP "):
                         opst[l.split()[1]] = opst.get(l.split()[1], 0) + 1
-                        if l.split()[1] in ("SP", "SR", "NX", "PV", "SK", "RS", "ST", "MODE"):
+                        if l.split()[1] in ("SP", "SR", "NX", "PV", "SK", "RS", "ST", "MODE", "RE"):
                             segs.append([])
                 if sq_pairs and len(out) > 3 and out[3].startswith("MF "):
                     mh = out[0].split("|"); mf = out[3].split()
